@@ -126,13 +126,26 @@ async def rescan_files(workflow: Workflow, reporter: ReporterClient, builder: Bu
     The following are not checked:
     - Files in the VOLATILE state: they are expected to change.
     - Files in the PLANNED state: they are not yet built, so their content is not relevant.
-    - Detached files: they are not part of the workflow, so their content is not relevant.
+    - Detached build products: they are not part of the workflow, so their content is not relevant.
+
+    Detached static files are checked, unlike detached products:
+    when a later build defines their creator again,
+    it is attached again together with the static files it declared and their recorded hashes,
+    and the steps that used them are not executed again,
+    so a change made while they were detached must be noticed here.
     """
     sql = (
         "SELECT label, state, hash "
-        "FROM node JOIN file ON node.i = file.node AND state NOT IN (?, ?) AND NOT detached"
+        "FROM node JOIN file ON node.i = file.node AND state NOT IN (?, ?) "
+        "AND (NOT detached OR state IN (?, ?, ?))"
     )
-    data = (FileState.PLANNED.value, FileState.VOLATILE.value)
+    data = (
+        FileState.PLANNED.value,
+        FileState.VOLATILE.value,
+        FileState.CONFIRMED.value,
+        FileState.MISSING.value,
+        FileState.UNCONFIRMED.value,
+    )
     async with workflow.db:
         rows = workflow.db.execute(sql, data).fetchall()
     if len(rows) == 0:
